@@ -10,6 +10,11 @@ CHECKS = {
   technique='TLA+ spec Solver.tla checked by TLC (all inputs of a small instance, M => P, termination); logs of the real Solver.solve() validated by TLC against SolverProps/TraceSolver.tla',
   text='TLC exhaustively checks that the mechanism model of solve() implies the property layer for every input of a small instance; the real solver is run on those same inputs (exact ticks) and on random non-commensurate inputs and every recorded log is evaluated by TLC against the property layer (verdict) and against the mechanism model (drift).',
   note='Trusts: the fake integrator/driver faithfully records step/dump/callback events; tick = 2^-4 makes float arithmetic exact; quantised traces use slack 2 units of tf*2^-28. Bounds: tf <= 8 ticks, dt <= 4, <= 2 output times, n_damp 0..2 for exact runs.'),
+ 'C06': dict(
+  cat='model_checking', design_ref='DESIGN.md section 5 (C06), 4.1',
+  technique='TLA+ record-list spec ParticleArray.tla; TLC checks the permutation mechanisms against it (ParticleArrayMC.tla) and validates logged histories of real ParticleArray objects step by step (TraceParticleArray.tla)',
+  text='Every public mutator is a TLA+ relation over the projected array state (order left open where the API does not promise one). TLC exhaustively checks that the swap-removal and align algorithms satisfy those relations on a small instance, and validates thousands of random API histories recorded from real ParticleArray objects: each call with its arguments and the full projection after it must satisfy the relation and the rectangularity / alignment / metadata invariants.',
+  note='Trusts the projection function (carray lengths, values, stride/default dictionaries read through the public attributes). Values are small integers; resize() growth is filled by the harness. Histories up to 80 calls on two arrays plus a result array.'),
 }
 
 NOT_APPLICABLE = {
